@@ -3,6 +3,8 @@
 
 ENGINE_TB = ["modelled, not verified: lean/Zog/Engine.lean mirrors zogSchema.go primitiveProcessor/primitiveValidator, struct.go, slices.go, pointers.go, custom.go (Preprocess schemas are not modelled)",
              "external, assumed: Go map/slice/defer/reflect semantics; user callbacks are functions of their argument"]
+ENGINE_ASSUME = ["schemas without Preprocess nodes", "struct destinations have a field for every schema key (otherwise zog panics by design)",
+                 "user callbacks do not reach other nodes through captured pointers"]
 
 def eng(nq, nt, variant=""):
     d = {"stream": "engine", "n_quick": nq, "n_thorough": nt}
@@ -10,14 +12,78 @@ def eng(nq, nt, variant=""):
         d["variant"] = variant
     return d
 
+def st(name, nq, nt, variant=""):
+    d = {"stream": name, "n_quick": nq, "n_thorough": nt}
+    if variant:
+        d["variant"] = variant
+    return d
+
+P = "Zog.Props."
+COMMON = [P + "facts_ok", P + "engine_is_spec"]
+
 PROPS = {
+ "C01": {
+  "module": "Zog.Props.C01",
+  "theorems": COMMON + [P + "C01." + t for t in ["prim_no_issue_sat", "complex_tests_hold", "success_means_every_visit_clean", "visits_only_append", "engine_success_iff", "tested_sat"]],
+  "streams": [eng(3000, 150000), eng(2000, 100000, "catch")],
+  "trusted_base": ENGINE_TB, "assumptions": ENGINE_ASSUME,
+ },
+ "C02": {
+  "module": "Zog.Props.C02",
+  "theorems": COMMON + [P + "C02." + t for t in ["all_failing_tests_reported", "issue_code_and_path", "satisfied_no_issue", "missing_required_one_issue", "uncoercible_one_issue", "slice_uncoercible", "struct_uncoercible", "nil_iff_no_issue", "engine_reports_spec_issues"]],
+  "streams": [eng(3000, 150000), eng(2000, 100000, "catch")],
+  "trusted_base": ENGINE_TB, "assumptions": ENGINE_ASSUME,
+ },
+ "C03": {
+  "module": "Zog.Props.C03",
+  "theorems": COMMON + [P + "C03." + t for t in ["bool_table", "int_from_string", "string_is_display", "time_table", "slice_table", "slice_length_preserved", "set_leaves_other_fields", "ptr_nil_stays_nil", "coercer_selected"]],
+  "streams": [st("coerce", 1500, 200000), eng(2500, 100000)],
+  "trusted_base": ENGINE_TB + ["external, supplied per case by the harness from the standard library directly: strconv.ParseFloat, time.Parse, fmt %v"],
+  "assumptions": ENGINE_ASSUME,
+ },
+ "C04": {
+  "module": "Zog.Props.C04",
+  "theorems": COMMON + [P + "C04." + t for t in ["parse_absent_iff", "parse_falsy_present", "blank_iff", "missing_key_nil", "validate_absent_table", "absent_default", "absent_required", "absent_optional", "slice_absent_required", "slice_absent_optional", "slice_validate_empty_required", "ptr_absent_notnil", "ptr_absent_optional", "ptr_present_allocates", "at_every_depth"]],
+  "streams": [eng(3000, 150000)],
+  "trusted_base": ENGINE_TB, "assumptions": ENGINE_ASSUME,
+ },
  "C05": {
   "module": "Zog.Props.C05",
-  "theorems": ["Zog.Props.facts_ok", "Zog.Props.engine_is_spec", "Zog.Props.C05.catch_no_issue", "Zog.Props.C05.catch_dest",
-               "Zog.Props.C05.catch_keeps_good_value", "Zog.Props.C05.catch_confined_spec", "Zog.Props.C05.catch_confined",
-               "Zog.Props.C05.engine_catch_no_issue"],
+  "theorems": COMMON + [P + "C05." + t for t in ["catch_no_issue", "catch_dest", "catch_keeps_good_value", "catch_confined_spec", "catch_confined", "engine_catch_no_issue"]],
   "streams": [eng(3000, 150000), eng(2000, 100000, "catch")],
-  "trusted_base": ENGINE_TB,
-  "assumptions": ["schemas without Preprocess nodes", "struct destinations have a field for every schema key (otherwise zog panics by design)"],
+  "trusted_base": ENGINE_TB, "assumptions": ENGINE_ASSUME,
+ },
+ "C09": {
+  "module": "Zog.Props.C09",
+  "theorems": COMMON + [P + "C09." + t for t in ["visit_order_is_permutation", "visit_order_same_length", "visit_order_mem", "engine_is_spec_for_every_order", "single_field_order_independent", "full_statement_false"]],
+  "streams": [st("order", 2500, 60000), eng(2000, 60000)],
+  "trusted_base": ENGINE_TB, "assumptions": ENGINE_ASSUME,
+ },
+ "C12": {
+  "module": "Zog.Props.C12",
+  "theorems": COMMON + [P + "C12." + t for t in ["tests_run_once_in_order", "posts_in_order_stop_at_first_error", "post_error_one_issue", "plain_error_issue_at_node_path", "posts_gated_on_no_issue", "posts_run_when_clean", "post_error_not_caught", "custom_called_with_value", "custom_mismatch_no_call", "engine_log_is_spec_log"]],
+  "streams": [eng(3000, 150000), eng(2000, 100000, "catch")],
+  "trusted_base": ENGINE_TB, "assumptions": ENGINE_ASSUME,
+ },
+ "C13": {
+  "module": "Zog.Props.C13",
+  "theorems": COMMON + [P + "C13." + t for t in ["prim_modes_agree", "prim_modes_agree_with_posts", "ptr_modes_agree", "same_field_keys", "custom_modes_agree", "coerce_own_type", "both_modes_refine"]],
+  "streams": [st("modes", 3000, 150000), eng(2000, 60000)],
+  "trusted_base": ENGINE_TB, "assumptions": ENGINE_ASSUME,
+ },
+ "C18": {
+  "module": "Zog.Props.C18",
+  "theorems": [P + "C18." + t for t in ["int_identity", "atoi_in_range", "nan_inf_rejected", "float_to_int_exact", "int32_in_range", "int32_same_number", "float32_no_overflow", "named_examples"]],
+  "streams": [st("coerce", 2000, 400000)],
+  "trusted_base": ["modelled, not verified: lean/Zog/Coerce.lean mirrors conf/Coercers.go DefaultCoercers.Int/Float64 and the Int32/Int64/Float32 adapters of numbers.go",
+                   "external: strconv.ParseFloat (supplied per case from the standard library); float32(x)/float64(n) hardware conversions have executable models (toF32, ofInt) validated by the stream"],
+  "assumptions": ["64-bit platform (Go int = int64)"],
+ },
+ "C19": {
+  "module": "Zog.Props.C19",
+  "theorems": COMMON + [P + "C19." + t for t in ["no_schema_writes", "validate_prim_frame", "second_run_same", "slice_default_is_copied"]],
+  "streams": [st("alias", 2500, 100000), eng(1500, 50000)],
+  "trusted_base": ENGINE_TB + ["Go memory aliasing is not expressible in the value model: destination/schema sharing is decided by the S-alias stream on the real code (second-run equality, input snapshots) and the go/ast fact schemaWrites = []"],
+  "assumptions": ENGINE_ASSUME,
  },
 }
